@@ -131,11 +131,13 @@ def convert_h5_group_to_dict(
         value = value[()]
 
         # h5py does not handle bytes natively, it maps it to a numpy generic type
-        if isinstance(value, ndarray) and value.dtype.type in {
-            object_,
-            bytes_,
-        }:
-            value = value[0] if value.size == 1 else value.tolist()
+        if isinstance(value, ndarray):
+            if value.dtype.type is object_:
+                # A list of strings, whatever its length.
+                value = value.tolist()
+            elif value.dtype.type is bytes_:
+                # A string.
+                value = value[0] if value.size == 1 else value.tolist()
 
         if isinstance(value, bytes):
             value = value.decode()
